@@ -92,7 +92,7 @@ func (r *Receiver) Receive(m Message, from uint16) {
 			return
 		}
 		r.Logger.Debugf("Got ack {sender: %d, digest: %s, round: %d} from %d",
-			sender, hex.EncodeToString(digest[:8]), msgRound, from)
+			sender, hex.EncodeToString(prefix(digest, 8)), msgRound, from)
 		r.registerMsg(msgReception{
 			digest:   string(digest),
 			msgRound: msgRound,
@@ -117,7 +117,7 @@ func (r *Receiver) Receive(m Message, from uint16) {
 	r.BroadcastAck(reception.digest, reception.sender, reception.msgRound)
 
 	r.Logger.Debugf("Got broadcast of round %d with digest %s from %d, broadcasting its digest",
-		reception.msgRound, hex.EncodeToString([]byte(reception.digest[:8])), from)
+		reception.msgRound, hex.EncodeToString(prefix([]byte(reception.digest), 8)), from)
 }
 
 func (r *Receiver) initIfNeeded() {
@@ -139,7 +139,7 @@ func (r *Receiver) registerMsg(ack msgReception, from uint16, msg Message) {
 	st := senderAndRound{s: ack.sender, r: ack.msgRound}
 	if savedDigest, exists := r.receivedRoundFromSender[st]; !exists {
 		r.Logger.Debugf("Registering  %s {sender: %d, digest: %s, round: %d} %s",
-			msgOrAck, ack.sender, hex.EncodeToString([]byte(ack.digest[:8])), ack.msgRound, receivedFrom)
+			msgOrAck, ack.sender, hex.EncodeToString(prefix([]byte(ack.digest), 8)), ack.msgRound, receivedFrom)
 		r.receivedRoundFromSender[st] = ack.digest
 	} else if savedDigest != ack.digest {
 		r.Logger.Debugf("Detected conflicting digests for {sender: %d, round: %d}: %s vs %s",
@@ -164,10 +164,18 @@ func (r *Receiver) registerMsg(ack msgReception, from uint16, msg Message) {
 	// Forward only once: when a new voucher completes the set
 	if !alreadyVouched && len(r.reception[ack].idSet) == r.N-1 {
 		r.Logger.Debugf("Collected enough acknowledgements (from %v) on {sender: %d, digest: %s, round: %d}",
-			r.reception[ack].idSet, ack.sender, hex.EncodeToString([]byte(ack.digest[:8])), ack.msgRound)
+			r.reception[ack].idSet, ack.sender, hex.EncodeToString(prefix([]byte(ack.digest), 8)), ack.msgRound)
 		r.ForwardToBackend(r.reception[ack].m, ack.sender)
 	} else {
 		r.Logger.Debugf("%d more acknowledgements on  {sender: %d, digest: %s, round: %d} are expected",
-			r.N-1-len(r.reception[ack].idSet), ack.sender, hex.EncodeToString([]byte(ack.digest[:8])), ack.msgRound)
+			r.N-1-len(r.reception[ack].idSet), ack.sender, hex.EncodeToString(prefix([]byte(ack.digest), 8)), ack.msgRound)
 	}
+}
+
+// prefix returns the first n bytes of b, or all of b if it is shorter
+func prefix(b []byte, n int) []byte {
+	if len(b) < n {
+		return b
+	}
+	return b[:n]
 }
